@@ -392,7 +392,8 @@ def _check_return(ctx, fi, cfg, dom, ret, R, env, facts, law_of, grid_col, label
         if isinstance(st, ast.Assign) and isinstance(st.targets[0], ast.Name) and st.targets[0].id in idx_names and \
                 not any(norm_text(c) == ptext for c in calls_in(st.value)):
             clamp = [c for c in calls_in(st.value) if (call_name(c) or "") in ("np.maximum", "np.minimum", "np.clip", "np.where", "max",
-                                                                                 "min", "np.abs", "abs")]
+                                                                                 "min", "np.abs", "abs") and
+                     any(isinstance(a, ast.Name) and a.id in idx_names for a_ in c.args for a in ast.walk(a_))]
             same_branch = any(x is ret for x in ast.walk(st._parent)) if hasattr(st, "_parent") else True
             if clamp and same_branch:
                 ctx.violated(fi, st, "the class index is altered after the search by %s: loads whose search result is changed by it "
